@@ -232,32 +232,6 @@ def history_mp(sig1, sr, fn, Q, stype, ic="zero", npad=0, nmax=None, dps=40):
     return out
 
 
-def natural_scale(sig, sr, freqs, stype, ic, nt):
-    """(LF,) magnitude against which absolute errors are measured: the raw input level times the
-    static gain of the response type (1, 1/w, 1/w^2); for fn = 0 the free-mass growth over nt
-    samples."""
-    sig = np.atleast_2d(np.asarray(sig, float))
-    a = float(np.abs(sig).max()) if sig.size else 0.0
-    out = np.empty(len(freqs))
-    for j, fn in enumerate(np.atleast_1d(freqs)):
-        w = 2.0 * math.pi * fn
-        T = nt / sr
-        if stype in ("absacce", "relacce", "pacce"):
-            g = 1.0
-        elif stype in ("relvelo", "pvelo"):
-            g = min(T, 1.0 / w) if w > 0 else T
-        else:
-            g = min(T * T, 1.0 / (w * w)) if w > 0 else T * T
-        if stype == "pvelo" and w > 0:
-            g = 1.0 / w
-        if stype == "reldisp" and w > 0:
-            g = 1.0 / (w * w)
-        if stype == "relvelo" and w > 0:
-            g = 1.0 / w
-        out[j] = a * g
-    return out
-
-
 # ------------------------------------------------------------------ frequency-domain closed forms
 
 def frf_transfer(p, Q):
